@@ -310,3 +310,128 @@ def fam_failpos(g, prop, count, types):
                     lst.append({"id": "%s-failpos%s-%03dk%02ds%d-%s" % (prop, "ilu" if ilu else "", i, k, sticky, ty), "lines": lines, "n": n})
         out[ty] = lst
     return out
+
+
+# ----------------------------------------------------------------------------- C05 / C06
+def scaled_matrix(g, n, cplx, spread):
+    """power-of-two valued matrix with rows / columns scaled by powers of two (exact equilibration, outcomes N/R/C/B)"""
+    r = g.r
+    if r.random() < 0.5:
+        A = g.lu_product(n, cplx)
+    else:
+        A, _ = g.matrix(n, n, cplx, style="pow2", kind=r.choice(["dense", "sparse", "band", "arrow", "zerodiag"]))
+    mode = r.choice(["none", "rows", "cols", "both"])
+    rs = [2.0 ** r.randint(-spread, spread) if mode in ("rows", "both") else 1.0 for _ in range(n)]
+    cs = [2.0 ** r.randint(-spread, spread) if mode in ("cols", "both") else 1.0 for _ in range(n)]
+    return {(i, j): (v[0] * rs[i] * cs[j], v[1] * rs[i] * cs[j]) for (i, j), v in A.items()}
+
+
+def gssvx_opts(g, fn="gssvx", **over):
+    r = g.r
+    o = {"default": 0, "ColPerm": r.choice(ORDERINGS[:4]), "u": float(r.choice([1.0, 1.0, 0.5, 0.125])), "Sym": 1 if r.random() < 0.15 else 0,
+         "Equil": r.choice([0, 1, 1]), "Trans": r.choice([0, 1, 2]), "IterRefine": r.choice([0, 0, 1, 2]),
+         "PivotGrowth": r.choice([0, 1]), "Cond": r.choice([0, 1])}
+    o.update(over)
+    return o
+
+
+def fam_gssvx(g, prop, count, types, nmax=7, spread=8):
+    out = {}
+    for ty, k in split_types(count, types).items():
+        cplx = is_cplx(ty)
+        lst = []
+        for i in range(k):
+            n = g.r.randint(1, nmax)
+            A = scaled_matrix(g, n, cplx, g.r.choice([0, 3, spread]))
+            o = gssvx_opts(g)
+            nrhs = g.r.choice([1, 1, 2, 3])
+            fmt = g.r.choice(["NC", "NR"])
+            B = g.rhs_for(A, n, nrhs, cplx, op=o["Trans"] if (cplx or o["Trans"] != 2) else 1)
+            ldb = n + g.r.choice([0, 2])
+            lines = ["tune " + " ".join(map(str, g.tune()))] + g.mat_lines(A, n, n, fmt, cplx) + g.rhs_lines(B, n, nrhs, ldb, cplx) + opt_lines(o)
+            lines += gssvx_block(work=None, events=0) + ["destroy all", "ledger"]
+            # complex data, row storage, conjugate transpose: kept in a family of its own (known finding, DESIGN 9.15)
+            fam = "gssvxNRconj" if (cplx and fmt == "NR" and o["Trans"] == 2) else "gssvx"
+            lst.append({"id": "%s-%s-%05d-%s" % (prop, fam, i, ty), "lines": lines, "n": n})
+        out[ty] = lst
+    return out
+
+
+FACT = {"DOFACT": 0, "SamePattern": 1, "SamePattern_SameRowPerm": 2, "FACTORED": 3}
+
+
+def history_scenario(g, sid, ty, hist, userwork=False):
+    """one TLC-generated history (list of [kind, change]) as a harness script on one sparsity pattern"""
+    r = g.r
+    cplx = is_cplx(ty)
+    n = r.randint(2, 6)
+    A = scaled_matrix(g, n, cplx, r.choice([0, 2]))
+    pattern = sorted(A)
+    fmt = r.choice(["NC", "NC", "NR"])
+    tune = g.tune()
+    tune[5] = r.choice([1, 2, 30])
+    o = gssvx_opts(g, IterRefine=r.choice([0, 1]))
+    if cplx and fmt == "NR" and o["Trans"] == 2:
+        o["Trans"] = 1
+    lines = ["tune " + " ".join(map(str, tune))] + g.mat_lines(A, n, n, fmt, cplx)
+    B = g.rhs_for(A, n, 1, cplx, op=o["Trans"] if (cplx or o["Trans"] != 2) else 1)
+    lines += g.rhs_lines(B, n, 1, n, cplx) + opt_lines(o)
+    cur = dict(A)
+    first = True
+    for kind, change in hist:
+        if not first:
+            lines.append("requireok")
+        if kind != "FACTORED":
+            # caller action on the values (same pattern)
+            if change == "unrelated":
+                cur = {k: g.value("pow2", cplx) for k in pattern}
+            elif change == "perturb":
+                cur = {k: (v[0] * (1 + 2.0 ** -20), v[1] * (1 + 2.0 ** -20)) for k, v in cur.items()}
+            elif change == "rescale":
+                rs = [2.0 ** r.randint(-3, 3) for _ in range(n)]
+                cur = {k: (v[0] * rs[k[0]], v[1] * rs[k[0]]) for k, v in cur.items()}
+            if change in ("unrelated", "perturb", "rescale", "same") and not first:
+                # (re)load the caller's values: an earlier call may have equilibrated A in place
+                ml = g.mat_lines(cur, n, n, fmt, cplx)
+                lines.append("newvals " + ml[3])
+            if change == "zeropiv" and not first:
+                lines.append("mutate zeropiv %d" % r.randint(0, n - 1))
+            if change == "shrinkpiv" and not first:
+                lines.append("mutate shrinkpiv %d %s" % (r.randint(0, n - 1), hx(2.0 ** -r.randint(3, 12))))
+            if kind in ("DOFACT", "SamePattern") and not first:
+                lines.append("destroy LU")
+        tr = r.choice([0, 1] if (cplx and fmt == "NR") else [0, 1, 2])     # (complex, NR, CONJ) is a known finding of C05
+        lines += opt_lines({"Fact": FACT[kind], "Trans": tr})
+        Bk = g.rhs_for(A, n, 1, cplx)          # any right-hand side
+        lines += g.rhs_lines(Bk, n, 1, n, cplx)
+        lines += gssvx_block(work=None, events=0)
+        first = False
+    lines += ["destroy all", "ledger"]
+    return {"id": sid, "lines": lines, "n": n}
+
+
+# ----------------------------------------------------------------------------- C18
+def screen_scenario(g, sid, ty, routine, corrupts, factored):
+    """an otherwise valid call of `routine` with the named single-argument corruptions"""
+    r = g.r
+    cplx = is_cplx(ty)
+    n = r.randint(2, 5)
+    A = scaled_matrix(g, n, cplx, 2)
+    B = g.rhs_for(A, n, 2, cplx)
+    lines = ["tune " + " ".join(map(str, g.tune()))] + g.mat_lines(A, n, n, "NC", cplx) + g.rhs_lines(B, n, 2, n + 1, cplx)
+    ilu = routine == "gsisx"
+    lines += opt_lines({"iludefault" if ilu else "default": 0, "ColPerm": NATURAL, "Equil": 1})
+    if routine != "gssv":
+        # a valid factorization first: the later call finds factors, permutations, scalings in place
+        lines += gssvx_block(work=None, fn="gsisx" if ilu else "gssvx")
+        lines += g.rhs_lines(B, n, 2, n + 1, cplx)
+    if routine == "trsv":
+        lines.append("vecx %d 1 " % n + " ".join((hx(1.0) + (" " + hx(0.0) if cplx else "")) for _ in range(n)))
+    if factored:
+        lines += ["seteq B"] + opt_lines({"Fact": 3})
+    for c in corrupts:
+        lines.append("corrupt " + c)
+    arg = {"gstrs": " 0", "gsrfs": " 0", "gscon": " 1"}.get(routine, "")
+    lines.append("call screen %s%s" % (routine, arg))
+    lines += ["destroy all", "ledger"]
+    return {"id": sid, "lines": lines, "n": n}
